@@ -16,17 +16,30 @@ variable {T K Vx Vr J LLS : Type}
 variable [Add K] [Sub K] [Mul K] [Div K] [Neg K] [Zero K] [One K] [LT K] [LE K]
   [DecidableLT K] [DecidableLE K] [DecidableEq K]
 
-/-- **c04_ok_iff**: `fit` returns `Ok` exactly when the optimizer's termination reason counts as
-successful, `Err` otherwise; in both cases it hands back exactly the final problem and the report
-of the optimizer. -/
+/-- **c04_ok_iff**: `fit` returns `Ok` exactly when the termination reason it reports counts as
+successful, `Err` otherwise; in both cases it hands back exactly the optimizer's final problem
+together with the report. -/
 theorem c04_ok_iff (P : LSP T K Vx Vr J) (o : Ops K Vx Vr J LLS) (nm : Num K) (cfg : Config K) (t : T) :
     let mr := minimize P o nm cfg t
-    (mr.2.termination.wasSuccessful = true →
-        fit P o nm cfg t = .ok { problem := mr.1, report := mr.2 }) ∧
-    (mr.2.termination.wasSuccessful = false →
-        fit P o nm cfg t = .error { problem := mr.1, report := mr.2 }) := by
-  intro mr
-  constructor <;> intro h <;> simp [fit, FitResult.wasSuccessful, mr, h]
+    let rep := finalReport P mr.1 mr.2
+    (rep.termination.wasSuccessful = true → fit P o nm cfg t = .ok { problem := mr.1, report := rep }) ∧
+    (rep.termination.wasSuccessful = false → fit P o nm cfg t = .error { problem := mr.1, report := rep }) := by
+  intro mr rep
+  constructor <;> intro h <;> simp [fit, FitResult.wasSuccessful, mr, rep, h]
+
+/-- **c04_report**: the reported termination is the optimizer's own, unless that was a successful
+one while the returned problem exposes no residuals – then (and only then) it is `User(..)`; the
+evaluation count and the objective are always the optimizer's. -/
+theorem c04_report (P : LSP T K Vx Vr J) (problem : T) (report : Report K) :
+    (finalReport P problem report).evaluations = report.evaluations ∧
+    (finalReport P problem report).objective = report.objective ∧
+    ((P.residuals problem).isSome = true → finalReport P problem report = report) ∧
+    (report.termination.wasSuccessful = false → finalReport P problem report = report) ∧
+    ((finalReport P problem report).termination.wasSuccessful = true →
+        (P.residuals problem).isSome = true) := by
+  unfold finalReport
+  cases hs : report.termination.wasSuccessful <;> cases hr : P.residuals problem <;>
+    simp [hs, show ∀ s, (Termination.user s).wasSuccessful = false from fun _ => rfl]
 
 /-- the successful termination reasons are exactly ResidualsZero, Orthogonal, Converged -/
 theorem c04_successful_iff (t : Termination) :
